@@ -1083,4 +1083,173 @@ theorem sol_step (o : VOpts) (fuel : Nat) (hV : SV o fuel) (hL : SOL o fuel) : S
               · intro kk' hk' h'; rw [closeDelim_objEven _ heven2 _ _ hk'] at h'; cases h'
               · intro kk' hk'; rw [closeDelim_objEven _ heven2 _ _ hk']; decide
 
+theorem step_beginObj (f : Frame) (frest : Frames) (hv : f.needName = false) :
+    PDA.step maxNestingDepth (f :: frest) .beginObj =
+      if frest.length < maxNestingDepth then some (.obj 0 :: f.bump :: frest) else none := by
+  simp [PDA.step, hv]
+
+theorem so_step (o : VOpts) (fuel : Nat) (hL : SOL o fuel) : SO o (fuel + 1) := by
+  intro D tl b st f frest pre cnt base ha hfuel
+  have hb1 : b + 1 < 2^61 := by have := ha.room; simp at this; omega
+  have hs : isStart 0x7B = true := by decide
+  obtain ⟨hcw, hncl, hndb⟩ := start_nc 0x7B hs
+  have hrt := readToken_pre o ha.good pre 0x7B tl ha.pre hcw hndb hncl
+  rw [lexToken_beginObj] at hrt
+  simp only [consumeObject]
+  by_cases hdep : (D == maxNestingDepth + 1) = true
+  · simp only [hdep, if_true]
+    refine ⟨fun he => by simp at he, fun _ => ?_⟩
+    have hD : D = maxNestingDepth + 1 := by simpa using hdep
+    have hstep : PDA.step maxNestingDepth (f :: frest) .beginObj = none := by
+      rw [step_beginObj f frest ha.vpos]
+      have := ha.depth
+      have : ¬ (frest.length < maxNestingDepth) := by omega
+      simp [this]
+    obtain ⟨se, hse⟩ := sm_err ha.good hb1 .beginObj hstep
+    have hse' : st.m.pushObject maxNestingDepth = .error se := hse
+    simp only [hse'] at hrt
+    exact rej_of_err o st _ cnt base _ _ hrt (smErr_ne_ioeof se)
+  · have hdep' : (D == maxNestingDepth + 1) = false := by simpa using hdep
+    simp only [hdep', Bool.false_eq_true, if_false, List.drop_succ_cons, List.drop_zero]
+    have hDne : D ≠ maxNestingDepth + 1 := by simpa using hdep
+    have hstep : PDA.step maxNestingDepth (f :: frest) .beginObj = some (.obj 0 :: f.bump :: frest) := by
+      rw [step_beginObj f frest ha.vpos]
+      have := ha.depth
+      by_cases hlt : frest.length < maxNestingDepth
+      · simp [hlt]
+      · exfalso
+        have hinv := ha.good.inv.depth
+        have habs := ha.good.abs
+        have hlen : (StateRefine.abs st.m).length = st.m.stack.length + 1 := by simp [StateRefine.abs]
+        rw [habs] at hlen
+        simp only [List.length_cons] at hlen
+        omega
+    obtain ⟨m', hm', hg1⟩ := sm_ok ha.good hb1 .beginObj hstep
+    have hm'' : st.m.pushObject maxNestingDepth = .ok m' := hm'
+    simp only [hm''] at hrt
+    generalize hst1def : ({ m := m', nss := if o.allowDup = true then st.nss else [] :: st.nss } : TState) = st1 at hrt
+    have hg1' : TGood (b + 1) st1 (.obj 0 :: f.bump :: frest) := by rw [← hst1def]; exact hg1 _
+    have hns1 : NsOK o st1 [] st.nss := by
+      rw [← hst1def]; unfold NsOK; cases o.allowDup <;> simp
+    have hst1 := steps_one o st st1 (pre ++ 0x7B :: tl) cnt base (pre.length + 1) hrt (by omega)
+    have hdrop0 : (pre ++ 0x7B :: tl).drop (pre.length + 1) = tl := by
+      rw [← List.drop_drop]; simp
+    have hdep1 : st1.m.depth = D + 1 := by
+      rw [good_depth hg1']; have := ha.depth; simp; omega
+    rw [hdrop0, hdep1] at hst1
+    have hc0 : (if (D + 1 == 1) = true then cnt + 1 else cnt) = cnt := by
+      have : D ≠ 0 := by have := ha.depth; omega
+      simp [this]
+    rw [hc0] at hst1
+    have hb2 : b + 1 + 1 < 2^61 := by have := ha.room; simp at this; omega
+    cases hd : tl.drop (consumeWhitespace tl) with
+    | nil =>
+      simp only
+      refine ⟨fun he => by simp at he, fun _ => ?_⟩
+      exact rej_of_steps o hst1 (rej_end o hg1' (by simp) tl (jws_of_drop_nil tl hd) cnt _)
+    | cons c rest =>
+      simp only
+      have hsplit := split_at_drop tl _ c rest hd
+      have hl1 := len_of_drop tl _ c rest hd
+      have hcw' : isWs c = false := by
+        have := ws_stop tl c rest hd; rw [← isWs_iff] at this; simpa using this
+      have htk := take_ws_len tl
+      by_cases hclose : (c == 0x7D) = true
+      · have hc : c = 0x7D := by simpa using hclose
+        subst hc
+        simp only [beq_self_eq_true, if_true]
+        refine ⟨fun _ => ?_, fun he => by simp at he⟩
+        obtain ⟨m2, hm2, hg2⟩ := sm_ok hg1' hb2 .endObj (step_endObj 0 rfl f.bump frest)
+        have hm2' : st1.m.popObject = .ok m2 := hm2
+        have hrt2 := readToken_nodelim o st1 (tl.take (consumeWhitespace tl)) 0x7D rest (ws_take tl) (by decide) (by decide)
+        rw [needDelim_good hg1' (normKind 0x7D) .endObj (by decide), closeDelim_objEven 0 rfl _ _ rfl] at hrt2
+        simp only [bne_self_eq_false, Bool.false_eq_true, if_false] at hrt2
+        rw [lexToken_endObj, ← hsplit, htk] at hrt2
+        simp only [hm2'] at hrt2
+        have hnss2 : (if o.allowDup = true then st1.nss else st1.nss.drop 1) = st.nss := by
+          unfold NsOK at hns1
+          cases ha' : o.allowDup <;> simp [ha'] at hns1 ⊢ <;> simp [hns1]
+        have hs2 := steps_one o st1 _ tl cnt (base + (pre.length + 1)) (consumeWhitespace tl + 1) hrt2 (by omega)
+        have hcomp := steps_trans o hst1 hs2
+        refine ⟨2, { m := m2, nss := if o.allowDup = true then st1.nss else st1.nss.drop 1 }, by omega,
+          by first | omega | (simp; omega) | simp, by first | omega | (simp; omega) | simp, hg2 _, hnss2, ?_⟩
+        have hdep2 : ({ m := m2, nss := if o.allowDup = true then st1.nss else st1.nss.drop 1 } : TState).m.depth = D := by
+          rw [good_depth (hg2 _)]; have := ha.depth; simp; omega
+        simp only at hcomp
+        rw [hdep2] at hcomp
+        have hcnt : (if (D == 1) = true then cnt + 1 else cnt) = (if D = 1 then cnt + 1 else cnt) := by
+          by_cases h : D = 1 <;> simp [h]
+        rw [hcnt] at hcomp
+        have hdrop : (0x7B :: tl).drop (1 + consumeWhitespace tl + 1) = tl.drop (consumeWhitespace tl + 1) := by
+          have : 1 + consumeWhitespace tl + 1 = (consumeWhitespace tl + 1) + 1 := by omega
+          rw [this, List.drop_succ_cons]
+        simp only
+        rw [hdrop]
+        have hbase : base + (pre.length + 1) + (consumeWhitespace tl + 1) = base + pre.length + (1 + consumeWhitespace tl + 1) := by omega
+        rw [hbase] at hcomp
+        exact hcomp
+      · have hclose' : (c == 0x7D) = false := by simpa using hclose
+        simp only [hclose', Bool.false_eq_true, if_false]
+        have hwsc : consumeWhitespace (c :: rest) = 0 := by simp [consumeWhitespace, hcw']
+        have ham : AtMem o (b + 1) (D + 1) st1 0 f.bump frest (tl.take (consumeWhitespace tl)) (c :: rest) [] st.nss :=
+          { good := hg1'
+            even := rfl
+            depth := by have := ha.depth; omega
+            lead := by rw [ncDelim_obj0]; exact Or.inl ⟨rfl, ws_take tl⟩
+            ns := hns1
+            guard := by
+              intro _ c' t' h'
+              rw [hwsc] at h'
+              simp only [List.drop_zero, List.cons.injEq] at h'
+              rw [← h'.1]; simpa using hclose
+            room := by have := ha.room; simp at this ⊢; omega }
+        have hsl := hL (D + 1) (c :: rest) [] (b + 1) st1 0 f.bump frest (tl.take (consumeWhitespace tl)) st.nss cnt
+          (base + (pre.length + 1)) ham (by simp at hfuel ⊢; omega)
+        rcases hal : objectLoop o fuel (D + 1) [] (c :: rest) with ⟨n2, e2⟩
+        rw [hal] at hsl
+        have hst1' : Steps o 1 st (pre ++ 0x7B :: tl) cnt base st1
+            (tl.take (consumeWhitespace tl) ++ c :: rest) cnt (base + (pre.length + 1)) := by
+          rw [← hsplit]; exact hst1
+        simp only [addOff]
+        constructor
+        · intro he2
+          simp only at he2
+          obtain ⟨T2, st2, hT2, hT2n, hn2l, hg2, hns2, hst2⟩ := hsl.1 he2
+          refine ⟨1 + T2, st2, by omega, by first | omega | (simp; omega), by simp at hn2l ⊢; omega, ?_, hns2, ?_⟩
+          · have : b + (1 + T2) = b + 1 + T2 := by omega
+            rw [this]; exact hg2
+          · have hcomp := steps_trans o hst1' hst2
+            have hcnt : (if D + 1 = 2 then cnt + 1 else cnt) = (if D = 1 then cnt + 1 else cnt) := by
+              by_cases h : D = 1
+              · subst h; simp
+              · have : ¬ (D + 1 = 2) := by omega
+                simp [h, this]
+            rw [hcnt] at hcomp
+            have hdrop : (0x7B :: tl).drop (1 + consumeWhitespace tl + n2) = (c :: rest).drop n2 := by
+              have : 1 + consumeWhitespace tl + n2 = (consumeWhitespace tl + n2) + 1 := by omega
+              rw [this, List.drop_succ_cons, ← List.drop_drop, hd]
+            simp only
+            rw [hdrop]
+            have hbase : base + (pre.length + 1) + (tl.take (consumeWhitespace tl)).length + n2 =
+                base + pre.length + (1 + consumeWhitespace tl + n2) := by rw [htk]; omega
+            rw [hbase] at hcomp
+            exact hcomp
+        · intro he2
+          simp only at he2
+          exact rej_of_steps o hst1' (hsl.2 he2)
+
+/-- the whole simulation: for every amount of fuel -/
+theorem sim_all (o : VOpts) (fuel : Nat) : SV o fuel ∧ SA o fuel ∧ SL o fuel ∧ SO o fuel ∧ SOL o fuel := by
+  induction fuel with
+  | zero =>
+    refine ⟨?_, ?_, ?_, ?_, ?_⟩
+    · intro D c tl b st f frest pre cnt base _ h; simp at h
+    · intro D tl b st f frest pre cnt base _ h; simp at h
+    · intro D r b st k g grest lead cnt base _ h; omega
+    · intro D tl b st f frest pre cnt base _ h; simp at h
+    · intro D r names b st k g grest lead outer cnt base _ h; omega
+  | succ fuel ih =>
+    obtain ⟨h1, h2, h3, h4, h5⟩ := ih
+    exact ⟨sv_step o fuel h2 h4, sa_step o fuel h3, sl_step o fuel h1 h3, so_step o fuel h5, sol_step o fuel h1 h5⟩
+
 end JsonV.Lemmas.WireTokenSim
